@@ -20,7 +20,7 @@ from sexp import Sym
 PROP = "C18"
 READY = True
 DRIVER = "dm_stores"
-LEAN_MODULES = ["DaskModel.Props.C18"]
+LEAN_MODULES = ["DaskModel.Props.C18", "DaskModel.Props.C18b"]
 TABLES = ["ByteTables"]
 CASE_TIMEOUT_S = 10
 N0 = 1125894277343089729          # first n whose rendering has 11 characters (Lean: format_len_partial / _refuted)
@@ -31,11 +31,16 @@ LEVEL_TEXT = (
     "the source on every run: format_len_le_10_refuted (the documented bound '<= 10 characters for all values < 2**60' "
     "is false: n = 1125894277343089729 prints '1000.00 PiB'), format_len_partial (the bound holds for every "
     "n < 1125894277343089729; proved band by band from rn53_mono / rheDiv_mono / cents_mono and one evaluation per "
-    "band end, no enumeration). The violation is recorded as a known finding (not repaired: the pinned "
-    "test_format_bytes requires format_bytes(2**60) == '1024.00 PiB'). parse_bytes, parse_timedelta and "
-    "natural_sort_key are modelled exactly and diffed against the real functions on every run; the parse/format "
-    "round trip, the documented multipliers for every unit spelling in any letter case and the totality/shape of "
-    "key_split and natural_sort_key are checked by oracle on the real code (theorems for those: see coverage.theorems).")
+    "band end, no enumeration), format_len_exact (every N0 <= n < 2**60 prints exactly 11 characters, so the "
+    "finding's range is exact). The violation is recorded as a known finding (not repaired: the pinned "
+    "test_format_bytes requires format_bytes(2**60) == '1024.00 PiB'). parse_bytes_units / parse_timedelta_units: "
+    "for every row of the extracted byte_sizes / timedelta_sizes tables, every spelling of the unit in any letter "
+    "case and every supported numeric prefix, the result is int(float(prefix) * multiplier) resp. the exact "
+    "binary64 product (the casing quantifier is discharged by proving that the lookup lower-cases first; the table "
+    "rows are quantified, not enumerated). natural_sort_key_shape / splitDigits_concat: odd number of parts, the "
+    "pieces spell the input. parse_bytes, parse_timedelta and natural_sort_key are diffed exactly against the real "
+    "functions on every run. NOT proved, validated by oracle on the real code only: the parse(format(n)) round-trip "
+    "bound, and key_split (totality, documented examples; no Lean model).")
 LEVEL_NOTE = ("Trusted: Lean kernel + standard axioms; CPython's float formatting/parsing being correctly rounded "
               "(validated by exact string comparison against the integer model on every run); the extractor; the "
               "correspondence harness. Only ASCII input strings; float literal syntax limited to "
@@ -46,9 +51,27 @@ ASSUMPTIONS = ["CPython float(), int/int true division, float*float and '%.2f' a
                "no overflow / subnormal / inf / nan in the exercised ranges"]
 
 
+# The DOCUMENTED multipliers (docstrings of parse_bytes / parse_timedelta, SI and IEC prefixes). The oracle scales by
+# these, not by the tables found in the code, so that a changed table entry is a property failure and not a
+# "harmless" change that model and code agree on. (Lean pins the extracted tables the same way:
+# byte_sizes_documented / timedelta_sizes_documented.)
+_SI = {"k": 10 ** 3, "m": 10 ** 6, "g": 10 ** 9, "t": 10 ** 12, "p": 10 ** 15}
+DOC_BYTES = {"b": 1, "": 1}
+for _p, _v in _SI.items():
+    DOC_BYTES[_p + "b"] = _v
+    DOC_BYTES[_p] = _v
+    DOC_BYTES[_p + "ib"] = 1024 ** (list(_SI).index(_p) + 1)
+    DOC_BYTES[_p + "i"] = 1024 ** (list(_SI).index(_p) + 1)
+DOC_TD = {"s": 1, "ms": 1e-3, "us": 1e-6, "ns": 1e-9, "m": 60, "h": 3600, "d": 86400, "w": 604800}
+for _n, _v in (("second", 1), ("minute", 60), ("hour", 3600), ("day", 86400), ("week", 604800),
+               ("millisecond", 1e-3), ("microsecond", 1e-6), ("nanosecond", 1e-9)):
+    DOC_TD[_n] = _v
+    DOC_TD[_n + "s"] = _v
+
+
 def _tables():
-    import dask.utils as du
-    return du.byte_sizes, du.timedelta_sizes
+    """the documented tables; the keys the code knows are only used to enumerate spellings"""
+    return DOC_BYTES, DOC_TD
 
 
 def _bands():
@@ -73,6 +96,11 @@ def case_fmt(ctx, inp):
     ctx.branch("band-" + unit)
     if n >= 2 ** 53:
         ctx.branch("n-above-2^53")
+    kk = {p + "B": k for p, k in _bands()}.get(unit)
+    if kk is not None and n >= 0:
+        # the model's shortcut for powers of two (rn53(n) * 2^-e) against its general correctly rounded quotient
+        q = ctx.lean(Sym("quot-general"), n, kk)
+        ctx.eq("model: general quotient vs power-of-two shortcut", q[0], q[1])
     # round trip within the printed precision
     try:
         back = parse_bytes(real)
@@ -182,6 +210,8 @@ def case_keysplit(ctx, inp):
         return
     if not isinstance(r, str):
         ctx.fail("key_split did not return a str", observed=repr(r))
+    if kind == "str" or (kind == "doc" and isinstance(arg, str)):
+        ctx.eq("key_split", ctx.lean(Sym("key-split"), arg), r)
     if kind == "doc" and r != want:
         ctx.fail("key_split differs from its documented example", observed=r, expected=want)
     if kind in ("bytes", "tuple") and r != key_split(s):
@@ -189,7 +219,22 @@ def case_keysplit(ctx, inp):
     ctx.branch("keysplit-" + ("Other" if r == "Other" else "data" if r == "data" else "name"))
 
 
-CASES = {"fmt": case_fmt, "parse": case_parse, "td": case_td, "natsort": case_natsort, "keysplit": case_keysplit}
+def case_tables(ctx, inp):
+    """the tables in the code are the documented ones"""
+    import dask.utils as du
+    if dict(du.byte_sizes) != DOC_BYTES:
+        diff = {k: (du.byte_sizes.get(k), DOC_BYTES.get(k)) for k in set(du.byte_sizes) | set(DOC_BYTES)
+                if du.byte_sizes.get(k) != DOC_BYTES.get(k)}
+        ctx.fail("byte_sizes differs from the documented units / multipliers", observed=diff)
+    low = {k: v for k, v in du.timedelta_sizes.items() if k == k.lower()}
+    if low != DOC_TD:
+        diff = {k: (low.get(k), DOC_TD.get(k)) for k in set(low) | set(DOC_TD) if low.get(k) != DOC_TD.get(k)}
+        ctx.fail("timedelta_sizes differs from the documented units / multipliers", observed=diff)
+    ctx.branch("tables")
+
+
+CASES = {"fmt": case_fmt, "parse": case_parse, "td": case_td, "natsort": case_natsort, "keysplit": case_keysplit,
+         "tables": case_tables}
 
 
 def _casings(rng, u, k=3):
@@ -214,6 +259,7 @@ def generate(ctx):
     ensure_budget(ctx)
     rng = ctx.rng
     byte_sizes, td_sizes = _tables()
+    yield "tables", {}
     # ---- format_bytes: boundaries, rounding edges, the finding's boundary, magnitudes
     yield "fmt", {"n": 2 ** 60 - 1}
     for d in (-3, -2, -1, 0, 1, 2):
@@ -264,8 +310,6 @@ def generate(ctx):
     for u in tunits:
         for cu in _casings(rng, u, 2):
             for num in rng.sample(NUMS, 3 if not ctx.thorough() else len(NUMS)):
-                if not num[0].isdigit():
-                    continue            # see notes: a leading '.' gets a '1' prepended by the code
                 if cu[0] in "eE":
                     continue
                 yield "td", {"s": f"{num}{rng.choice(['', ' '])}{cu}", "unit": cu, "num": num}
